@@ -122,6 +122,21 @@ def nfcKana : Str → Str
     | none => a :: nfcKana (b :: t)
   | s => s
 
+/-- Canonical decomposition (NFD) on the kana block U+3040–U+30FF: the inverse of `composeKana`; any
+other character is left alone.  Used to state "NFD-decomposed input behaves as the composed input";
+compared with Python's `unicodedata.normalize("NFD", ·)` on the whole block by `./check C17`. -/
+def decompKana (c : Nat) : Str :=
+  if 0x3040 ≤ c ∧ c < 0x3100 then
+    if dakutenBase (c - 1) then [c - 1, 0x3099]
+    else if handakutenBase (c - 2) then [c - 2, 0x309A]
+    else if c = 0x3094 then [0x3046, 0x3099]
+    else if c = 0x30F4 then [0x30A6, 0x3099]
+    else if 0x30F7 ≤ c ∧ c ≤ 0x30FA then [c - 8, 0x3099]
+    else [c]
+  else [c]
+
+def nfdKana (s : Str) : Str := s.flatMap decompKana
+
 /-- `kana_alpha::convert`. -/
 def convert (table : List Row) (s : Str) : Option Str :=
   let n := nfcKana s
